@@ -3,7 +3,8 @@ ModelSM!NeoNodes / NeoRels state what ingesting a model must send (one node per 
 per direction labelled with the field containing the source asset); the spec-level theorem NeoRoundTrip (reading back
 every pair of opposite relationships whose labels are the two fields of an association gives PairLinks) is checked by TLC
 on every explored state. The replay ingests into a recording stand-in for py2neo.Graph and reads the model back from it;
-attack graphs of the C01 (language, model) pairs are ingested and compared node by node / edge by edge."""
+attack graphs of the C01 (language, model) pairs are ingested and compared node by node / edge by edge; the graph families
+of Gen_AprioriBig (12 to 240 nodes, ids permuted by the arrival order) are ingested after the analysis."""
 LEVEL = 'model_checking'
 
 
@@ -12,7 +13,8 @@ def run(run):
     langs = run.libs()
     run.rule = ('cases = (i) final states of ModelSM behaviours (accepted calls) with NeoNodes / NeoRels from TLC, ingested and '
                 'read back; (ii) (language, model) pairs of the C01 generator, ingested as attack graphs; non-trivial = state '
-                'with at least one link / graph with at least one edge; distinct by abstraction')
+                'with at least one link / graph with at least one edge; distinct by abstraction; (iii) model-less graph families of '
+                'Gen_AprioriBig in four arrival orders')
     run.assumptions = ["the stand-in's evaluation of the two fixed Cypher patterns (relationship uniqueness included) is trusted",
                        'defense values and attackers are not part of the model export']
     A = 'harness.replay_neo'
@@ -33,3 +35,10 @@ def run(run):
     for lang, depth in (('LDef', 3), ('LTiny', 3), ('LOne', 3)) if quick else (('LDef', 4), ('LTiny', 5), ('LSet', 5), ('LTrans', 5), ('LInh', 3), ('LOne', 4)):
         run.gen_replay('Gen_Graph', 'Gen_Graph.cfg', 'harness.replay_neo_graph', {'langs': langs},
                        env={'VERIF_LANG': lang, 'VERIF_DEPTH': depth}, timeout=1500, name='attack graphs of %s models to depth %d' % (lang, depth))
+    # larger, model-less attack graphs: the Gen_AprioriBig families (chains, a whole-chain cycle, ladders, skip links, fans;
+    # up to two parents per step) built through add_node in four arrival orders each, so that node ids (assigned on arrival)
+    # of one, two and three digits are spread over the structure; analysed, ingested, compared node by node (labels as the
+    # specification computes them) and relationship by relationship (exactly one per edge)
+    run.gen_replay('Gen_AprioriBig', 'Gen_AprioriBig.cfg', 'harness.replay_neo_big', {'seed': run.seed},
+                   env={'VERIF_L1': 12, 'VERIF_L2': 120 if quick else 240, 'VERIF_L3': 0}, timeout=900, workers=16,
+                   name='model-less attack graph families of 12 / %d nodes, 4 arrival orders each' % (120 if quick else 240))
